@@ -238,7 +238,7 @@ func (c *Ctx) newVC(fn *ssa.Function, fc *FuncContract) *VC {
 		}
 	}
 	return &VC{ctx: c, fn: fn, fc: fc, declSet: map[string]bool{}, arrSort: map[string]string{}, snipCnt: map[string]int{},
-		abstracted: map[string]int{}, strlits: map[string]string{}, calledContracts: map[string]int{}, externals: map[string]int{}, usedTypeInvs: map[string]bool{}, stableOwner: so}
+		abstracted: map[string]int{}, strlits: map[string]string{}, calledContracts: map[string]int{}, externals: map[string]int{}, usedTypeInvs: map[string]bool{}, stableOwner: so, arrBound: map[string]string{}}
 }
 
 // verifyFunc builds the VC of fn for property prop and returns it.
